@@ -676,18 +676,10 @@ def i_MOVBE(i, fmap):
     fmap[rip] = fmap[rip] + i.length
     dst = i.operands[0]
     _t = fmap(i.operands[1])
-    if i.misc["opdsz"] == 16:
-        fmap[dst[0:8]] = _t[8:16]
-        fmap[dst[8:16]] = _t[0:8]
-    else:
-        fmap[dst[0:8]] = _t[56:64]
-        fmap[dst[8:16]] = _t[48:56]
-        fmap[dst[16:24]] = _t[40:48]
-        fmap[dst[24:32]] = _t[32:40]
-        fmap[dst[32:40]] = _t[24:32]
-        fmap[dst[40:48]] = _t[16:24]
-        fmap[dst[48:56]] = _t[8:16]
-        fmap[dst[56:64]] = _t[0:8]
+    # the 2, 4 or 8 bytes of the source in reverse order:
+    x = composer([_t[p : p + 8] for p in range(_t.size - 8, -1, -8)])
+    dst, x = _r32_zx64(dst, x)
+    fmap[dst] = x
 
 
 def i_MOVSX(i, fmap):
